@@ -390,7 +390,12 @@ class Project(MessageHandler):
         for task in self.tasks:
             if not task.leaf():
                 continue
-            deps = task.get("depends", scIdx) or []
+            # Own dependencies and those inherited from the enclosing containers
+            deps = []
+            node = task
+            while node:
+                deps.extend(node.get("depends", scIdx) or [])
+                node = node.parent
             for dep in deps:
                 if isinstance(dep, dict):
                     pred = dep.get("task")
@@ -408,8 +413,10 @@ class Project(MessageHandler):
                         # derives END from predecessor's START, so this task is NOT terminal
                         has_onstart_dep.add(task.fullId if hasattr(task, "fullId") else None)
                     else:
-                        # Normal finish-to-start: predecessor has a successor
-                        has_fs_successor.add(pred.fullId)
+                        # Normal finish-to-start: predecessor has a successor - and so has every
+                        # task below it when the predecessor is a container
+                        for below in pred.all():
+                            has_fs_successor.add(below.fullId)
 
         def propagate_end_to_children(task: Any, container_end: Optional[Any]) -> None:
             """Recursively propagate end constraint down the task tree."""
